@@ -197,11 +197,11 @@ META = {
     'technique': 'static analysis: symbolic value analysis of the derivation helpers against reference definitions and explicit '
                  'registration formulas (FORMULA/AGREE incl. loop body, rejecting paths), argument propagation into the '
                  'constructors (PROPAGATE)',
-    'level': 'Decides from the source that a slice takes columns l..r-1 and the frequency of its first/last column as fch1, that '
-             'de-drifting shifts row i by round(|d| i dt/df) towards the start of the drift, trims to the common band, rejects rates '
-             'leaving no channels and registers fch1 per orientation and drift sign, that integration sums/averages the right axis '
-             'and wraps it with the parent\'s resolutions, and that every derived frame receives the parent\'s orientation, '
-             'resolutions, start time, source name, generator and a copy of the data. "Within one channel" for drifting signals is '
-             'not decided.',
+    'level': 'Decides from the source that a slice takes columns l..r-1 and the frequency of its first/last column as fch1 '
+             '(numpy index semantics, negative bounds included), that de-drifting shifts row i by round(|d| i dt/df) towards '
+             'the start of the drift, trims to the common band, rejects rates leaving no channels and registers fch1 per '
+             "orientation and drift sign, that integration sums/averages the right axis and wraps it with the parent's "
+             "resolutions, and that every derived frame receives the parent's orientation, resolutions, start time, source "
+             'name, generator and a copy of the data. "Within one channel" for drifting signals is not decided.',
     'note': 'Real arithmetic; fr is typed as a Frame so fs/fmin/fmax expand to the grid formulas checked under C05.',
 }
